@@ -44,9 +44,10 @@ def bounds(tier):
         return {"sizes": [[1, 1], [2, 1], [1, 2], [2, 2], [1, 0], [0, 2], [3, 1]], "easy": [[0, 0], [1, 0], [0, 2], [1, 2]],
                 "ratios": [0.5, 0.34, 0.99], "switch_sizes": [99, 100, 101], "deviations": 1,
                 "strata_easy": list(range(0, 61))}
-    return {"sizes": [[1, 1], [2, 1], [1, 2], [2, 2], [1, 0], [0, 2], [3, 1], [1, 3], [3, 2], [2, 3], [3, 3], [0, 1]],
-            "easy": [[0, 0], [1, 0], [0, 2], [1, 2], [3, 3], [2, 0]], "ratios": [0.5, 0.34, 0.99, 0.67],
-            "switch_sizes": [99, 100, 101], "deviations": 2, "strata_easy": list(range(0, 201))}
+    # (the complete trees of sources with 3+3 scores and 3+3 easy samples, tried first, do not finish within an hour)
+    return {"sizes": [[1, 1], [2, 1], [1, 2], [2, 2], [1, 0], [0, 2], [3, 1], [1, 3], [0, 1]],
+            "easy": [[0, 0], [1, 0], [0, 2], [1, 2], [2, 0]], "ratios": [0.5, 0.34, 0.99, 0.67],
+            "switch_sizes": [99, 100, 101], "deviations": 2, "strata_easy": list(range(0, 101))}
 
 
 def work(tier, seed):
